@@ -102,10 +102,16 @@ func (m c13mon) Check(s *sim.Sim, st *sim.Step) []*sim.Violation {
 				}
 			}
 		case "RecoveryCodes":
+			// a proven (re-)enrolment: the stored factor after the request is the one proven now
 			enrol := false
-			for _, e := range rec.Diff() {
-				if e.PID == d.PID && (e.Field == "TOTPSecretKey" || e.Field == "SMSPhone") && e.New != "" {
-					enrol = true
+			if after := rec.After.Users[d.PID]; after != nil && wellFormed {
+				switch route {
+				case "POST /2fa/totp/confirm":
+					sec := rec.SessIn["totp_secret"]
+					enrol = sec != "" && after.TOTPSecretKey == sec && sim.TOTPCodes(sec)[a.Secret]
+				case "POST /2fa/sms/confirm":
+					num := rec.SessIn["sms_number"]
+					enrol = num != "" && after.SMSPhone == num && s.SMSSentTo(num, a.Secret)
 				}
 			}
 			if !(enrol || route == "POST /2fa/recovery/regen") {
@@ -117,7 +123,7 @@ func (m c13mon) Check(s *sim.Sim, st *sim.Step) []*sim.Violation {
 	}
 	// e-mail authorisation gate
 	if s.Cfg.TwoFAEmail && enrolRoutes[route] && rec.HandlerRan {
-		if !s.Br[a.B].EVAuthed {
+		if bs := s.Br[a.B]; !bs.EVAuthed || bs.EVFor != owner {
 			tokenInSession := rec.SessIn["twofactor_auth_token"] != ""
 			vs = append(vs, vio("C13", fmt.Sprintf("enrolment-route-reached-without-email-authorisation|token-requested=%v", tokenInSession), "%s ran for %q although this session never presented the token e-mailed to the account for it (twofactor_authed=%q, token requested in this session: %v)", route, owner, rec.SessIn["twofactor_authed"], tokenInSession))
 		} else {
@@ -275,7 +281,7 @@ func init() {
 			sim.RunHistory(s, c13Profile, []sim.Monitor{c13mon{c.Stats}}, c.Stats, unit)
 		},
 		Floors: func(t string) map[string]int {
-			return map[string]int{"totp-enabled": 10, "totp-disabled": 5, "sms-enabled": 10, "sms-disabled": 3, "regenerated": 5, "enrolment-route-gated": 20, "enrolment-route-after-email-authorisation": 10, "recovery-code-consumed": 5}
+			return map[string]int{"totp-enabled": 10, "totp-disabled": 3, "sms-enabled": 10, "sms-disabled": 1, "regenerated": 5, "enrolment-route-gated": 20, "enrolment-route-after-email-authorisation": 10, "recovery-code-consumed": 5}
 		},
 		Assumptions: []string{"an SMS proof is 'a code the outbox delivered to the number in question'", "TOTP proofs are judged on the real clock within +-2 steps"},
 	})
